@@ -273,7 +273,7 @@ impl Prop for C16 {
             v.push(format!("curve:order{}", o));
             v.push(format!("fx:order{}", o));
         }
-        for c in ["curve:calendar:Cal", "curve:calendar:UnionCal", "curve:calendar:NamedCal", "curve:index_base:some", "curve:index_base:none", "spline:solved", "spline:unsolved", "fx:saved-after-quote-updates", "fx:saved-as-built", "fx:saved-after-update-attempts-that-must-be-refused", "float:subnormal", "float:random-bits", "name:non-ascii", "name:quote", "name:empty", "namedcal:python-constructor:plain-spelling", "namedcal:python-constructor:padded-spelling"] {
+        for c in ["curve:calendar:Cal", "curve:calendar:UnionCal", "curve:calendar:NamedCal", "curve:index_base:some", "curve:index_base:none", "spline:solved", "spline:unsolved", "fx:saved-after-quote-updates", "fx:saved-as-built", "fx:saved-after-update-attempts-that-must-be-refused", "float:subnormal", "float:random-bits", "name:non-ascii", "name:quote", "name:empty", "dual2:second-order-block-not-symmetric", "dual2:second-order-block-symmetric", "namedcal:python-constructor:plain-spelling", "namedcal:python-constructor:padded-spelling"] {
             v.push(c.to_string());
         }
         v
@@ -285,7 +285,7 @@ impl Prop for C16 {
         16
     }
     fn rule(&self) -> String {
-        "Seeded objects of every serialisable kind - Dual, Dual2, Number, Cal, UnionCal, NamedCal, CalType, Python-facing Curve (5 rules + null x orders 0/1/2 x 3 calendar kinds x index_base some/none, float / Dual / Dual2 nodes), FXRates (orders 0/1/2, float / Dual / Dual2 quotes; half of them saved after 1-3 quote updates / derivative-order switches), PPSpline of the 3 types (solved and unsolved) - with hostile contents: random finite bit patterns, 17-significant-digit values, sub-normals, +-0, extreme exponents, neighbours of powers of ten; variable names with quotes, back-slashes, control and non-ASCII characters and the empty name; holiday timestamps with non-midnight and nanosecond parts. Half of the named calendars are made by the Python-facing constructor from a free spelling of a valid name (mixed case; white space around members and separators - whatever the constructor accepts must come back). Each goes through serde_json (the JSON trait), the tagged from_json container and the Python-exposed from_json function (verif hooks), bincode (the pickle state) and the pickle protocol itself as Python runs it (cls(*__getnewargs__()) then __setstate__(__getstate__()), verif hooks; also for every Convention and Modifier value, currencies and single quotes) and is compared with the original by the type's own == AND field by field / bit for bit, plus query answers (calendar predicates on sampled dates, curve values and index values, all n^2 FX rates, spline knots and coefficients). distinct_nontrivial = one per generated object.".into()
+        "Seeded objects of every serialisable kind - Dual, Dual2, Number, Cal, UnionCal, NamedCal, CalType, Python-facing Curve (5 rules + null x orders 0/1/2 x 3 calendar kinds x index_base some/none, float / Dual / Dual2 nodes), FXRates (orders 0/1/2, float / Dual / Dual2 quotes; half of them saved after 1-3 quote updates / derivative-order switches), PPSpline of the 3 types (solved and unsolved) - with hostile contents: second-order blocks that are not symmetric (one Dual2 in three; the type does not require symmetry), random finite bit patterns, 17-significant-digit values, sub-normals, +-0, extreme exponents, neighbours of powers of ten; variable names with quotes, back-slashes, control and non-ASCII characters and the empty name; holiday timestamps with non-midnight and nanosecond parts. Half of the named calendars are made by the Python-facing constructor from a free spelling of a valid name (mixed case; white space around members and separators - whatever the constructor accepts must come back). Each goes through serde_json (the JSON trait), the tagged from_json container and the Python-exposed from_json function (verif hooks), bincode (the pickle state) and the pickle protocol itself as Python runs it (cls(*__getnewargs__()) then __setstate__(__getstate__()), verif hooks; also for every Convention and Modifier value, currencies and single quotes) and is compared with the original by the type's own == AND field by field / bit for bit, plus query answers (calendar predicates on sampled dates, curve values and index values, all n^2 FX rates, spline knots and coefficients). distinct_nontrivial = one per generated object.".into()
     }
     fn assumptions(&self) -> Vec<String> {
         vec![
@@ -389,6 +389,16 @@ fn run_kind(_: (), kind: &str, r: &mut Rng) -> Outcome {
         }
         "Dual2" => {
             let o = gen_dual2(r);
+            {
+                use rateslib::dual::Gradient2;
+                let h = o.dual2();
+                let n = h.nrows();
+                if (0..n).any(|i| (0..n).any(|j| h[[i, j]].to_bits() != h[[j, i]].to_bits())) {
+                    cls.push("dual2:second-order-block-not-symmetric".into());
+                } else if n >= 2 {
+                    cls.push("dual2:second-order-block-symmetric".into());
+                }
+            }
             float_classes(&o.dual().to_vec(), &mut cls);
             name_classes(&o.vars().iter().cloned().collect::<Vec<_>>(), &mut cls);
             let d = o.describe();
